@@ -289,7 +289,18 @@ def r98(db, ctx):
             takers[k] = (f, bp[0])
     for k, (f, bp) in sorted(takers.items()):
         R = X.Rec(f)
-        bexpr = lambda e: (m(('call~', 'Option::unwrap_or_default', (('p', bp),)), e) is not None) or e == ('p', bp)
+        def bexpr(e, f=f, R=R, bp=bp):
+            if m(('call~', ('Option::unwrap_or_default', 'Option::unwrap_or_else', 'Option::unwrap_or'), (('p', bp),)), e) is not None or e == ('p', bp) or \
+                    (e[0] == 'call' and e[1].endswith(('Option::unwrap_or_else', 'Option::unwrap_or')) and e[2] and e[2][0] == ('p', bp)):
+                return True
+            # `match background.into() { Some(b) => b, None => Background::default() }`: a local whose definitions are the payload or the default
+            if e[0] == 'v':
+                ds = f.defs().get(e[1], [])
+                vals = [norm(R.call(d_[2]) if d_[1] == 'term' else R.rvalue(d_[2]), True) for d_ in ds]
+                is_payload = lambda v_: v_ == ('fld', ('down', ('p', bp), 'Some'), '0')
+                is_default = lambda v_: v_[0] == 'call' and v_[1].endswith(('Default::default', 'Background::uniform')) and not v_[2]
+                return len(vals) >= 2 and all(is_payload(v_) or is_default(v_) for v_ in vals) and any(is_payload(v_) for v_ in vals)
+            return False
         sites, probs = 0, []
         for bi, blk in enumerate(f.blocks):
             if blk['cleanup']:
@@ -323,7 +334,9 @@ def r98(db, ctx):
                 rels = G.relations(f, R, bi)
                 okc = False
                 for r in rels:
-                    if r[0] == 'eq' or (r[0] == 'false' and isinstance(r[1], tuple) and r[1][0] == 'call' and r[1][1].endswith('::ne')):
+                    call_eq = (r[0] == 'false' and isinstance(r[1], tuple) and r[1][0] == 'call' and r[1][1].endswith('::ne')) or \
+                        (r[0] == 'true' and isinstance(r[1], tuple) and r[1][0] == 'call' and r[1][1].endswith('::eq'))
+                    if r[0] == 'eq' or call_eq:
                         a_, b_ = (r[1], r[2]) if r[0] == 'eq' else (r[1][2][0], r[1][2][1])
                         sides = [norm(a_, True), norm(b_, True)]
                         fr = [m(('call~', 'Background::frequencies', ('$x',)), x) for x in sides]
